@@ -138,8 +138,22 @@ def one_case(sh, fa, rng, case, recs, skip_nested_union_defaults=False, force_de
             for g, b in zip(got, bvals):
                 want = dict(b)
                 for f in chosen:
-                    t = RC.from_datum(f.type, f.default)
-                    want[f.name] = RB.to_py(f.type, t)
+                    # a union default belongs to the first branch (specification) - or, as the
+                    # binary writer treats it, to the branch the C09 rule picks: either is accepted
+                    alts = []
+                    try:
+                        alts.append(RB.to_py(f.type, RC.from_datum(f.type, f.default)))
+                    except Exception:
+                        pass
+                    ft = deref(f.type)
+                    if ft.kind == "union" and ft.branches:
+                        try:
+                            if RC.conforms(ft.branches[0], f.default):
+                                alts.append(RB.to_py(ft.branches[0], RC.from_datum(ft.branches[0], f.default)))
+                        except Exception:
+                            pass
+                    hit = [a for a in alts if RJ.values_equal(f.type, g.get(f.name) if isinstance(g, dict) else None, a)]
+                    want[f.name] = hit[0] if hit else (alts[0] if alts else None)
                 if not RJ.values_equal(node, g, want):
                     return ("default-not-filled", "absent keys %s: read %s, expected %s" % ([f.name for f in chosen], printable(g, 250), printable(want, 250)), info2)
             sh.count("default_fill_checked")
